@@ -11,7 +11,6 @@ fixed = [e for e in old if e.get("status") == "fixed"]
 merged = {}
 for p in sys.argv[1:]:
     for sig, g in json.load(open(p)).items():
-        sig = re.sub(r"^txt/\w+ ", "txt ", sig)
         m = merged.setdefault(sig, {"what": g["What"], "replay": g["Replay"], "tuples": set()})
         m["tuples"].update(g["Tuples"])
 entries = list(fixed)
